@@ -529,6 +529,9 @@ func (env *rEnv) eval(n *rNode) Value {
 		if mv, ok := base.(VMap); ok {
 			return env.mapIndex(mv, env.eval(n.Args[1]), n)
 		}
+		if xa, ok := base.(VAbs); ok && xa.Kind == "strslice" {
+			return sym(Select(xa.Data.(*StrSlice).Arr, env.term(n.Args[1]), SStr))
+		}
 		if sl, ok := base.(VSlice); ok {
 			if idx, okc := constIndex(env.eval(n.Args[1])); okc {
 				if arr, ok := env.post.heap[sl.Cell].(VStruct); ok && idx >= 0 && sl.Lo+idx < sl.Hi && sl.Lo+idx < len(arr.F) {
